@@ -32,7 +32,10 @@ pub fn build() -> (Vec<u8>, Vec<u8>) {
     e.push((5, XEntry::InUse { off: o, gen: 0 }));
     let o = d.obj(6, 0, &empty_pages_body());
     e.push((6, XEntry::InUse { off: o, gen: 0 }));
-    d.xref_table(&e, 7, "/Root 5 0 R", None, Split::Min);
+    let o = d.obj(8, 0, b"<< /Type /Page /Parent 7 0 R /MediaBox [0 0 1 1] >>");
+    e.push((8, XEntry::InUse { off: o, gen: 0 }));
+    e.push((7, XEntry::Free { next: 0, gen: 1 }));
+    d.xref_table(&e, 9, "/Root 5 0 R", None, Split::Min);
     (d.buf, z)
 }
 
